@@ -438,11 +438,6 @@ class Tdf:
         except StopIteration:
             raise ValueError(f"No block of type {type} found")
 
-        # calculate new offset for the next unused slot
-        newOffset = (
-            self.entries[-1].offset if oldEntryPos != 0 else (64 + 288 * self.nEntries)
-        )
-
         # delete entry
         self.entries.remove(oldEntry)
         self.handler.seek(64 + 288 * oldEntryPos, 0)
@@ -450,6 +445,14 @@ class Tdf:
         for entry in self.entries[oldEntryPos:]:
             entry.offset -= oldEntry.size
             entry._write(self.handler)
+
+        # the new unused slot points at the end of the data, computed from
+        # the already shifted entries
+        newOffset = (
+            self.entries[-1].offset + self.entries[-1].size
+            if self.entries
+            else (64 + 288 * self.nEntries)
+        )
 
         # add new unused slot at the end
         date = datetime.now()
